@@ -125,7 +125,17 @@ fn one_case(t: i32, i: usize, ctx: &Ctx, rep: &mut Report, dir: &str) {
         max_len: if cfg!(miri) { 4 } else if big { 400 } else { ctx.pick(5, 40) },
     };
     let max_n = if cfg!(miri) { 3 } else { ctx.pick(5, 40) };
-    let mut shapes = gen::sequence(t, &mut r, &c, 1, if big { 3 } else { max_n }, i as u64);
+    let sizes = gen::threshold_sizes(ctx.thorough);
+    let large: Option<usize> = if !cfg!(miri) && i >= 10 && i < 10 + sizes.len() && i % 3 == (t as usize) % 3 { Some(sizes[i - 10]) } else { None };
+    let mut shapes = match large {
+        // a file with `sz` records (point types) / a shape with `sz` points and one with many parts
+        Some(sz) if gen::is_point(t) => (0..sz).map(|_| gen::shape(t, &mut r, &Cfg::plain(1, 1))).collect(),
+        Some(sz) => vec![gen::shape_exact(t, &mut r, &Cfg::plain(1, 2), 1, sz), gen::shape_exact(t, &mut r, &Cfg::plain(1, 2), if gen::is_multipoint(t) { 1 } else { sz / 3 }, 3)],
+        None => gen::sequence(t, &mut r, &c, 1, if big { 3 } else { max_n }, i as u64),
+    };
+    if large.is_some() {
+        rep.count("large_cases(amounts straddling powers of two)", 1);
+    }
     if i == 0 && gen::is_polygon(t) {
         shapes.insert(r.usize_in(0, shapes.len()), sign_lost_polygon(t));
     }
